@@ -80,6 +80,18 @@ CONFIG = {
             "a remote pin whose local best-effort unpin received an injected IPFS error may stay pinned (tolerated by the statement)",
         ],
     },
+    "C06": {
+        "pkg": "c06",
+        "legs": [
+            {"run": "^TestLocalViews$", "quick": (1500, 8), "thorough": (60000, 16)},
+        ],
+        "floors": {"local-views": {"nontrivial": 3000}},
+        "assumptions": [
+            "views are compared at status-class level: the tree names 'in the pinset but not in IPFS' pin_error in Status() and unexpectedly_unpinned in StatusAll(); both are error statuses",
+            "daemon entries whose mode differs from the recorded mode are generated but only the cross-view and filter laws are judged on them (IPFS has no status for 'direct held, recursive wanted')",
+            "a CID absent from the listing counts as unpinned",
+        ],
+    },
     "C08": {
         "pkg": "c08",
         "regress": "^TestRegress",
